@@ -175,7 +175,7 @@ def c20_csv(repo: str, verif: str, tier: str) -> dict:
     """faithful hardware-model streams: marker k at tick (k+1)*2^23; edges at chosen ticks incl. the half-wrap boundaries"""
     t0 = time.time()
     target = "alpha-g-chronobox-timestamps (real binary) on synthetic MIDAS files"
-    bound = "hardware-model streams of 9 half wraps with edges at / next to every half-wrap boundary, with and without scaler blocks, cut into banks of irregular sizes over 2 files; one stream without closing marker"
+    bound = "hardware-model streams of 9 half wraps with edges at / next to every half-wrap boundary, with and without scaler blocks, cut into banks of irregular sizes over 2 files; one stream without closing marker; six single faults (truncated entry, truncated scaler block, no counter-0 marker, two foreign words, counter-0 marker with top bit set) that must fail without a CSV; a dropped and a duplicated marker; two boards interleaved"
     bins, err = build(repo, verif, ["alpha-g-chronobox-timestamps"])
     if bins is None:
         return {"name": "c20_csv", "status": "undecided", "reason": "binary does not build: " + err, "target": target, "bound": bound}
@@ -235,6 +235,70 @@ def c20_csv(repo: str, verif: str, tier: str) -> dict:
                             return _fail("c20_csv", target, bound, cases, f"{what}: timestamp without enclosing markers has a time {g}", t0)
                     elif g["chronobox_time"] == "" or abs(float(g["chronobox_time"]) - ticks / 10e6) > 1e-9:
                         return _fail("c20_csv", target, bound, cases, f"{what}: channel {ch}: chronobox_time {g['chronobox_time']!r}, true time {ticks / 10e6!r}", t0)
+        # ---- every single fault of the statement: the program must fail and must not leave a CSV behind
+        def good(nm=4):
+            w = b""
+            for k in range(nm):
+                w += cb_marker(k)
+                if k < nm - 1:
+                    w += cb_ts(k % 59, (k + 1) * H + 10)
+            return w
+        scal = struct.pack("<I", 0xFE00003C) + bytes(range(240))
+        faults = [
+            ("stream ends inside an entry", good() + cb_ts(3, 5 * H + 10)[:2]),
+            ("stream ends inside a scaler block", good() + scal[:100]),
+            ("no counter-0 marker", cb_marker(1) + cb_ts(2, 2 * H + 10) + cb_marker(2)),
+            ("word that is neither timestamp, marker nor scaler tag", good()[:8] + struct.pack("<I", 0x7F000010) + good()[8:]),
+            ("channel number 59 (not a timestamp word)", good()[:8] + struct.pack("<I", ((0x80 | 59) << 24) | 0x10) + good()[8:]),
+            ("counter-0 marker with its top bit set", struct.pack("<I", 0xFF000000 | (1 << 23)) + cb_ts(1, H + 10) + cb_marker(1)),
+        ]
+        for what, words in faults:
+            p = os.path.join(work, "run00043sub000.mid")
+            open(p, "wb").write(midas(43, 100, 101, [event(4, 0, 10, [bank("CBF1", words)])]))
+            out = os.path.join(work, "fault.csv")
+            if os.path.exists(out):
+                os.remove(out)
+            cases += 1
+            r = subprocess.run([exe, p, "--output", out], capture_output=True, text=True, timeout=600)
+            if r.returncode == 0 or os.path.exists(out):
+                return _fail("c20_csv", target, bound, cases, f"fault `{what}`: exit status {r.returncode}, CSV written: {os.path.exists(out)} (must fail without writing a CSV)", t0)
+        # ---- a dropped and a duplicated marker: the timestamps next to the gap get an empty time, never a wrong one
+        def ts_at(k, off=10):
+            return cb_ts(k % 59, (k + 1) * H + off)
+        streams = [
+            ("marker 2 dropped", [cb_marker(0), ts_at(0), cb_marker(1), ts_at(1), ts_at(2), cb_marker(3), ts_at(3), cb_marker(4)],
+             [(0, True), (1, False), (2, False), (3, True)]),
+            ("marker 2 duplicated around a timestamp", [cb_marker(0), ts_at(0), cb_marker(1), ts_at(1), cb_marker(2), ts_at(2), cb_marker(2), ts_at(2, 20), cb_marker(3)],
+             [(0, True), (1, True), (2, False), (2, True)]),
+        ]
+        for what, parts, exp in streams:
+            p = os.path.join(work, "run00045sub000.mid")
+            open(p, "wb").write(midas(45, 100, 101, [event(4, 0, 10, [bank("CBF1", b"".join(parts))])]))
+            cases += 1
+            got, e = run_bin(exe, [p], os.path.join(work, "gap.csv"))
+            if got is None:
+                return _fail("c20_csv", target, bound, cases, f"{what}: binary failed: {e}", t0)
+            if len(got) != len(exp):
+                return _fail("c20_csv", target, bound, cases, f"{what}: {len(got)} rows for {len(exp)} timestamps", t0)
+            offs = iter([10, 10, 10, 20] if "duplicated" in what else [10, 10, 10, 10])
+            for g, (k, timed) in zip(got, exp):
+                off = next(offs)
+                true = (((k + 1) * H + off) & ~1) / 10e6
+                if g["chronobox_time"] != "" and abs(float(g["chronobox_time"]) - true) > 1e-9:
+                    return _fail("c20_csv", target, bound, cases, f"{what}: wrong time {g['chronobox_time']} for the edge at {true}", t0)
+                if (g["chronobox_time"] != "") != timed:
+                    return _fail("c20_csv", target, bound, cases, f"{what}: edge after marker {k}: time {'missing' if timed else 'reported'} ({g['chronobox_time']!r})", t0)
+        # ---- two boards in one run: rows grouped by board, each in stream order
+        wa, wb = good(5), good(3)
+        p = os.path.join(work, "run00044sub000.mid")
+        open(p, "wb").write(midas(44, 100, 101, [event(4, 0, 10, [bank("CBF2", wb[:12]), bank("CBF1", wa[:20])]), event(4, 1, 11, [bank("CBF1", wa[20:]), bank("CBF2", wb[12:])])]))
+        cases += 1
+        got, e = run_bin(exe, [p], os.path.join(work, "two.csv"))
+        if got is None:
+            return _fail("c20_csv", target, bound, cases, f"two boards: binary failed: {e}", t0)
+        want = [("cb01", k % 59) for k in range(4)] + [("cb02", k % 59) for k in range(2)]
+        if [(g["board"], int(g["channel"])) for g in got] != want:
+            return _fail("c20_csv", target, bound, cases, f"two boards: rows {[(g['board'], g['channel']) for g in got]} are not grouped by board in stream order {want}", t0)
     finally:
         shutil.rmtree(work, ignore_errors=True)
     return {"name": "c20_csv", "status": "bounded-ok", "target": target, "bound": bound, "cases": cases, "distinct": cases, "time_s": round(time.time() - t0, 1)}
